@@ -425,3 +425,30 @@ PROPS['C10'] = dict(
     assumptions=COMMON_ASSUME,
     extra_coverage={'inputs_judged': lambda agg, d: agg['counters'].get('inputs_judged', 0)},
 )
+
+
+# ---------------------------------------------------------------- C11
+def c11_jobs(tier):
+    return [
+        Job('json', 'c11', 'json', q(tier, 100000, 5000000)),
+        Job('msgpack', 'c11', 'msgpack', q(tier, 100000, 5000000)),
+        Job('json-tiny', 'c11', 'json', q(tier, 30000, 1000000), defines={'ARDUINOJSON_POOL_CAPACITY': 4, 'ARDUINOJSON_SLOT_ID_SIZE': 2, 'ARDUINOJSON_DEBUG': 1, 'ARDUINOJSON_ENABLE_COMMENTS': 1}),
+        Job('msgpack-tiny', 'c11', 'msgpack', q(tier, 30000, 1000000), defines={'ARDUINOJSON_POOL_CAPACITY': 4, 'ARDUINOJSON_SLOT_ID_SIZE': 2, 'ARDUINOJSON_DEBUG': 1}),
+    ]
+
+
+PROPS['C11'] = dict(
+    level='exploration',
+    rule='pairs (input, filter): inputs 3/4 valid (JSON texts / MessagePack objects incl. duplicate keys, NUL in keys, bin/ext), 1/4 truncated/mutated/random; filters = random documents '
+         '(true/false/null/numbers/strings, nested objects and arrays, "*" wildcards, empty containers) biased towards mismatching shapes (object filter over arrays, array filter over objects, '
+         'wildcard wrappers, deep filters over shallow inputs), passed as JsonVariantConst, as JsonDocument& and with a std::string input. Oracle: project(unfiltered result, filter) written from the statement; '
+         'Filter(true) identity (code and document) on every input; peak live bytes of the filtered run <= unfiltered run (total bytes requested within 12.5% + 256) when the unfiltered run is Ok; inspector invariants; distinct = distinct (input, filter)',
+    jobs=c11_jobs,
+    min_evaluations=dict(quick=200000, thorough=10000000),
+    technique='differential monitoring: filtered run against an executable projection of the library\'s own unfiltered result, plus allocator-ledger comparison of the two runs, under ASan+UBSan',
+    level_text='Exploration over generated (input, filter) pairs; equality of results for accepted inputs, safety and memory for all.',
+    level_note='Not judged: the number 1 as filter entry (it compares equal to true), an explicit null entry next to a "*" member (the wildcard applies), memory on inputs the unfiltered run rejects (the filtered run may legitimately read further because discarded parts are skipped, not parsed).',
+    assumptions=COMMON_ASSUME,
+    extra_coverage={'accepted_inputs': lambda agg, d: agg['counters'].get('accepted_inputs', 0), 'projections_that_removed_something': lambda agg, d: agg['counters'].get('projections_that_removed_something', 0)},
+    must_observe={'projections removing something': lambda agg, d: agg['counters'].get('projections_that_removed_something', 0) > 0},
+)
